@@ -14,6 +14,9 @@
 
 #include "hex.hpp"
 #include "hexsimio.hpp"
+#ifdef HEX_VERIF
+#include <functional>
+#endif
 
 namespace hexsim {
 
@@ -78,6 +81,30 @@ public:
     io(in, out), truncateInputs(true), out(out),
     running(true), tracing(false), lastPC(0), cycles(0),
     maxCycles(maxCycles) {}
+
+#ifdef HEX_VERIF
+  // Verification hooks (off by default): access to the architectural state and
+  // an observer called after every executed instruction, which may stop the run
+  // by returning false.
+  uint32_t verifGetPC() const { return pc; }
+  uint32_t verifGetAreg() const { return areg; }
+  uint32_t verifGetBreg() const { return breg; }
+  uint32_t verifGetOreg() const { return oreg; }
+  uint32_t verifGetLastPC() const { return lastPC; }
+  uint32_t verifGetInstr() const { return instr; }
+  void verifSetPC(uint32_t value) { pc = value; }
+  void verifSetAreg(uint32_t value) { areg = value; }
+  void verifSetBreg(uint32_t value) { breg = value; }
+  void verifSetOreg(uint32_t value) { oreg = value; }
+  uint32_t *verifMemory() { return memory.data(); }
+  size_t verifMemoryWords() const { return MEMORY_SIZE_WORDS; }
+  size_t verifCycles() const { return cycles; }
+  bool verifRunning() const { return running; }
+  void verifSetRunning(bool value) { running = value; }
+  int verifExitCode() const { return exitCode; }
+  const std::vector<std::pair<std::string, unsigned>> &verifDebugInfo() const { return debugInfo; }
+  std::function<bool(Processor&)> verifObserver;
+#endif
 
   void setTracing(bool value) { tracing = value; }
   void setTruncateInputs(bool value) { truncateInputs = value; }
@@ -356,6 +383,11 @@ public:
           throw std::runtime_error("invalid instruction");
       }
       cycles++;
+#ifdef HEX_VERIF
+      if (verifObserver && !verifObserver(*this)) {
+        break;
+      }
+#endif
     }
     return exitCode;
   }
